@@ -1025,8 +1025,22 @@ class Exec:
         st.pc.append(safe_forall([k], z3.Implies(z3.And(0 <= k, k < m), z3.And(0 <= sg(k), sg(k) < n, arrR[k] == arrL[sg(k)], cond(arrL[sg(k)]), tau(sg(k)) == k)), patterns=[arrR[k]]))
         st.pc.append(safe_forall([k, k2], z3.Implies(z3.And(0 <= k, k < k2, k2 < m), sg(k) < sg(k2)), patterns=[z3.MultiPattern(sg(k), sg(k2))]))
         st.pc.append(safe_forall([j], z3.Implies(z3.And(0 <= j, j < n, cond(arrL[j])), z3.And(0 <= tau(j), tau(j) < m, sg(tau(j)) == j, arrR[tau(j)] == arrL[j])), patterns=[arrL[j]]))
+        # the same selection seen through a counting function: cnt(j) = number of kept elements among L[0:j]; the j-th element, if kept, is R[cnt(j)]
+        cnt = z3.Function(f"cnt!{fresh('f')}", I, I)
+        st.pc.append(cnt(0) == 0)
+        st.pc.append(safe_forall([j], z3.Implies(j >= 0, z3.And(cnt(j + 1) == cnt(j) + z3.If(z3.And(j < n, cond(arrL[j])), 1, 0), cnt(j) >= 0)), patterns=[cnt(j + 1)]))
+        st.pc.append(safe_forall([j], z3.Implies(z3.And(0 <= j, j < n, cond(arrL[j])), z3.And(tau(j) == cnt(j), arrR[cnt(j)] == arrL[j])), patterns=[cnt(j)]))
+        st.pc.append(cnt(n) == m)
         self.notes.append("filtered comprehension: characterised by ghost index maps (strictly increasing selection of exactly the elements that satisfy the condition)")
-        return self.new_list(st, src.elem, m, arrR)
+        R = self.new_list(st, src.elem, m, arrR)
+        if src.elem == "ref:Message" and getattr(src, "frozen_heap", None) is None:
+            # instance of lemma wsum_filter: if every element that is filtered OUT has wait-weight 0, the filtered list has the same wait sum
+            from .specfns import wsum_fn
+            fL, fR = wsum_fn(self, st, src), wsum_fn(self, st, R)
+            wL = self._specfn_weight(st, src)
+            st.pc.append(z3.Implies(safe_forall([j], z3.Implies(z3.And(0 <= j, j < n, z3.Not(cond(arrL[j]))), wL(j) == 0)), fR(m) == fL(n)))
+            self.notes.append("L: instance of lemma wsum_filter (filtering out messages that are not waits keeps the wait sum)")
+        return R
 
     def range_list(self, call, st):
         args = [self.ev(a, st) for a in call.args]
@@ -1180,6 +1194,9 @@ class Exec:
                 fr = _as_frac(v.as_real()) if v.real else None
                 if fr is not None and not z3.is_int_value(fr[1]):
                     # a quotient of integers is whole iff the denominator divides the numerator (FLOAT-EXACT; a zero divisor was excluded when the quotient was formed)
+                    # ground instance of lemma exact_div for the truncated quotient the code is about to take: d | n  ==>  trunc(n/d) * d == n
+                    st.pc.append(z3.Implies(z3.And(fr[1] > 0, fr[0] % fr[1] == 0), z3.And(_tdiv(fr[0], fr[1]) == fr[0] / fr[1], _tdiv(fr[0], fr[1]) * fr[1] == fr[0])))
+                    self.notes.append("L: instance of lemma exact_div at float(x).is_integer()")
                     return BoolV(fr[0] % fr[1] == 0)
                 return BoolV(z3.ToReal(z3.ToInt(v.as_real())) == v.as_real())
             if f.attr == "index":
@@ -1564,6 +1581,8 @@ class Exec:
                     g = self.truth(self.spec_ev(expr, t), t)
                     self.oblige(f"assert-at[{nm}]@{x.lineno}", t, g, "assert-at", text=expr)
                     self.__dict__.setdefault("anchors_hit", set()).add(nm)
+                    st = st.cp()
+                    st.pc = list(t.pc) + [g]          # checked here on every path, hence available from here on (assert, then assume)
         if self.contract is not None and self.contract.lemma_at and not isinstance(x, (ast.If, ast.For, ast.While)):
             src = " ".join(ast.unparse(x).split())
             for lname, anchor, expr in self.contract.lemma_at:
